@@ -221,10 +221,9 @@ func (h *H) c02Compressible(n int) []byte {
 
 // c02NewRepo builds a small real repository behind the faulty wrapper: blobs (some stored in two
 // or three packs), snapshot / lock / index files, the key and the config.
-func (h *H) c02NewRepo() *c02Repo {
+func (h *H) c02NewRepo(version uint) *c02Repo {
 	inner := mem.New()
 	f := &c02Faulty{Backend: inner}
-	version := uint(1 + h.Intn(2))
 	opts := repository.Options{}
 	switch h.Intn(3) {
 	case 0:
@@ -283,6 +282,17 @@ func (h *H) c02NewRepo() *c02Repo {
 			if _, err := repository.VerifC02SaveUnpacked(ctx, repo, t, d); err != nil {
 				panic(err)
 			}
+		}
+	}
+	// authentic files whose payload takes the other branches of decompressUnpacked (written with
+	// the repository key directly: unsupported version byte, corrupt zstd stream, raw JSON, empty)
+	for _, payload := range [][]byte{{1, 2, 3}, append([]byte{2}, h.Bytes(9)...), []byte(`{"raw":true}`), {}} {
+		nonce := crypto.NewRandomNonce()
+		ct := repo.Key().Seal(append([]byte(nil), nonce...), nonce, payload, nil)
+		id := restic.Hash(ct)
+		t := []backend.FileType{backend.SnapshotFile, backend.LockFile}[h.Intn(2)]
+		if err := inner.Save(ctx, backend.Handle{Type: t, Name: id.String()}, backend.NewByteReader(ct, inner.Hasher())); err != nil {
+			panic(err)
 		}
 	}
 	r.state = DumpBackend(inner)
@@ -611,7 +621,7 @@ func (h *H) c02StoredCase(r *c02Repo) {
 func streamC02(h *H) {
 	nrepos := h.N(4, 160)
 	for i := 0; i < nrepos; i++ {
-		r := h.c02NewRepo()
+		r := h.c02NewRepo(uint(2 - i%2))
 		h.c02StoredCase(r)
 		for j := 0; j < 45; j++ {
 			h.c02LoadRawCase(r, false)
